@@ -55,3 +55,21 @@ P = StreamProperty("C09", [FourierOracle, ConsistencyOracle], streams, RULE, ("C
                    lambda ops: ops[0]["shape"][ops[0]["dims"].index(ops[-1]["kw"]["dim"])] % 2 == 1 or ops[-1]["kw"]["zff"] > 1
                    or ops[0]["dims"][0] != ops[-1]["kw"]["dim"])
 run, replay = P.run, P.replay
+
+
+# ------------------------------------------------------------------ the same numbers stored in another dtype
+from oracles import dtype_independence, merge_oracle
+from common import np, dnp
+DTYPE_CASES = [("fourier_transform", lambda d, dim: dnp.fourier_transform(d, dim), "t2"),
+    ("fourier_transform-noshift-zf2", lambda d, dim: dnp.fourier_transform(d, dim, zero_fill_factor=2, shift=False), "t2"),
+    ("inverse_fourier_transform", lambda d, dim: dnp.inverse_fourier_transform(d, dim), "f2"),
+    ("roundtrip", lambda d, dim: dnp.inverse_fourier_transform(dnp.fourier_transform(d, dim), "f2"), "t2")]
+_run_before_dtype = run
+
+
+def run(tier, seed, escalate=False):
+    """… plus: integer / single-precision / complex storage of the values and integer / unsigned / single-precision storage of
+    the processed axis give the result of the float64 object (a dtype the function refuses is not judged)"""
+    res = _run_before_dtype(tier, seed, escalate)
+    f, n = dtype_independence("C09", DTYPE_CASES, seed, dim_positions=(1,) if tier == "quick" and not escalate else (0, 1, 2))
+    return merge_oracle(res, f, n, "storage_dtype_variants")
